@@ -41,6 +41,17 @@
    (FieldSelect_mutant_kinds.cfg).  The replay harness runs every case as a regular, a child and a child-parent
    event, and a sample end to end through a running pipeline [split, keep_fields | remove_fields].
 
+   Instances.  The pipeline starts ONE plugin instance per processor from ONE shared Config, and the processors run
+   concurrently.  The depth buffers belong to the INSTANCE (mechanism switch M_BuffersPerInstance = TRUE: Start
+   allocates them).  Two-instance model (SpecInst / InstInv, FieldSelect_instances.cfg): the control flow of
+   traverseFieldsTree does not depend on the buffer contents, so one Do is a fixed sequence of buffer operations
+   (push name at depth / delete the names read at depth from the object at a path / reset depth: TravOps); two
+   instances work on their own documents and their operations interleave in every possible way; each result must be
+   the declarative Keep of its own document.  The mutant FALSE = "the instances' slices are windows of the same
+   backing arrays (shallow copy of the slice headers)" must be REJECTED by TLC (FieldSelect_mutant_instances.cfg):
+   B's pushes overwrite A's pending delete list between A's collect and A's delete steps.  Do cannot be split in the
+   real code, so the binding is a concurrent run: N >= 4 real instances from one Config, each on its own documents.
+
    One state = one CASE (family, document, selector list); the case is the only variable.               *)
 EXTENDS Integers, Sequences, FiniteSets, TLC, Json
 
@@ -49,7 +60,8 @@ CONSTANTS Fams,          \* sequence of scope families, see QuickFams / Thorough
                          \* object's last member into its place, so the key order of survivors changes
           Cap,           \* initial capacity of one per-depth delete buffer (100 in the code; small here)
           M_DepthBuffersDisjoint,  \* mechanism (TRUE = the code): every depth buffer has its own backing array
-          M_AllDocumentKindsFiltered   \* mechanism (TRUE = the code): Do filters every event that carries a document
+          M_AllDocumentKindsFiltered,  \* mechanism (TRUE = the code): Do filters every event that carries a document
+          M_BuffersPerInstance     \* mechanism (TRUE = the code): every plugin instance allocates its own depth buffers
 
 VARIABLES cs             \* [fam, doc, sels]; sels = <<>> while the selector list is not chosen yet
 
@@ -397,6 +409,93 @@ AllInv ==
 
 \* the property the spec mutant ~M_DepthBuffersDisjoint must violate (plain invariant, so TLC prints the case)
 MutantInv == Chosen => ImplKeep(FALSE, cs.sels, cs.doc) = Keep(SeqSet(cs.sels), cs.doc)
+-----------------------------------------------------------------------------
+(* two plugin instances (processors) started from one Config, running concurrently *)
+
+\* the buffer operations of one traverseFieldsTree run, in program order (independent of the buffer contents):
+\*   push  : fieldsDepthSlice[d-1] = append(fieldsDepthSlice[d-1], k)
+\*   flush : the delete loop over fieldsDepthSlice[d-1] on the object at `path` (del = FALSE: the `if` is not taken)
+\*   reset : fieldsDepthSlice[d-1] = fieldsDepthSlice[d-1][:0]
+BufOp(op, d, k, path, del) == [op |-> op, d |-> d, k |-> k, path |-> path, del |-> del]
+RECURSIVE TravOps(_, _, _, _)
+RECURSIVE TravOpsLoop(_, _, _, _, _, _, _)
+TravOpsLoop(Q, f, i, depth, path, ops, pres) ==
+  IF i > Len(f) THEN [ops |-> ops, pres |-> pres]
+  ELSE LET k == f[i][1]
+           push == BufOp("push", depth + 1, k, <<>>, FALSE)
+       IN IF k \in Heads(Q)
+            THEN IF Sub(Q, k) = {}
+                   THEN TravOpsLoop(Q, f, i + 1, depth, path, ops, TRUE)
+                   ELSE LET c == TravOps(Sub(Q, k), f[i][2], depth + 1, Append(path, k))
+                        IN IF c.ret THEN TravOpsLoop(Q, f, i + 1, depth, path, ops \o c.ops, TRUE)
+                           ELSE TravOpsLoop(Q, f, i + 1, depth, path, Append(ops \o c.ops, push), pres)
+            ELSE TravOpsLoop(Q, f, i + 1, depth, path, Append(ops, push), pres)
+TravOps(Q, node, depth, path) ==
+  IF Q = {} THEN [ops |-> <<>>, ret |-> TRUE]
+  ELSE IF ~IsObj(node) THEN [ops |-> <<>>, ret |-> FALSE]
+  ELSE LET r == TravOpsLoop(Q, node.f, 1, depth, path, <<>>, FALSE)
+       IN [ops |-> r.ops \o << BufOp("flush", depth + 1, 0, path, depth = 0 \/ r.pres),
+                               BufOp("reset", depth + 1, 0, <<>>, FALSE) >>,
+           ret |-> r.pres]
+
+\* delete the names from the object at `path` of v (order-preserving delete: the residual algorithm)
+RECURSIVE DelAt(_, _, _)
+DelAt(v, path, names) ==
+  IF ~IsObj(v) THEN v
+  ELSE IF path = <<>> THEN Obj(DelAll(FALSE, v.f, names))
+  ELSE LET i == IndexOfKey(v.f, path[1]) IN
+       IF i = 0 THEN v ELSE Obj([v.f EXCEPT ![i] = <<path[1], DelAt(v.f[i][2], Tail(path), names)>>])
+
+\* state of two instances: docs[inst]; per instance and depth the slice (n elements of the array it points into, or,
+\* after an append beyond Cap, a private array `own`); arr[owner][depth] the backing arrays allocated at Start
+InstOwner(inst) == IF M_BuffersPerInstance THEN inst ELSE 1
+InstInit(dA, dB, depthMax) ==
+  [docs |-> <<dA, dB>>,
+   n    |-> [i \in 1..2 |-> [d \in 1..depthMax |-> 0]],
+   priv |-> [i \in 1..2 |-> [d \in 1..depthMax |-> FALSE]],
+   own  |-> [i \in 1..2 |-> [d \in 1..depthMax |-> <<>>]],
+   arr  |-> [i \in 1..2 |-> [d \in 1..depthMax |-> Zeros(Cap)]]]
+InstRead(S, inst, d) == IF S.priv[inst][d] THEN S.own[inst][d]
+                        ELSE SubSeq(S.arr[InstOwner(inst)][d], 1, S.n[inst][d])
+InstStep(S, inst, o) ==
+  CASE o.op = "push" ->
+         IF S.priv[inst][o.d] THEN [S EXCEPT !.own[inst][o.d] = Append(@, o.k)]
+         ELSE IF S.n[inst][o.d] < Cap
+                THEN [S EXCEPT !.arr[InstOwner(inst)][o.d][S.n[inst][o.d] + 1] = o.k, !.n[inst][o.d] = @ + 1]
+                ELSE [S EXCEPT !.priv[inst][o.d] = TRUE, !.own[inst][o.d] = Append(InstRead(S, inst, o.d), o.k)]
+    [] o.op = "flush" ->
+         IF o.del THEN [S EXCEPT !.docs[inst] = DelAt(@, o.path, InstRead(S, inst, o.d))] ELSE S
+    [] o.op = "reset" ->
+         IF S.priv[inst][o.d] THEN [S EXCEPT !.own[inst][o.d] = <<>>] ELSE [S EXCEPT !.n[inst][o.d] = 0]
+RECURSIVE InstRun(_, _, _, _)
+InstRun(S, opsA, opsB, sch) ==
+  IF sch = <<>> THEN S
+  ELSE IF Head(sch) = 1 THEN InstRun(InstStep(S, 1, Head(opsA)), Tail(opsA), opsB, Tail(sch))
+  ELSE InstRun(InstStep(S, 2, Head(opsB)), opsA, Tail(opsB), Tail(sch))
+RECURSIVE Merges(_, _)
+Merges(n, m) == IF n = 0 /\ m = 0 THEN {<<>>}
+                ELSE (IF n > 0 THEN {<<1>> \o x : x \in Merges(n - 1, m)} ELSE {})
+                     \cup (IF m > 0 THEN {<<2>> \o x : x \in Merges(n, m - 1)} ELSE {})
+
+\* cases of the two-instance model: two documents of the family, one selector list
+InitInst == \E i \in 1..Len(Fams) : \E d \in DocsOf[i] : \E d2 \in DocsOf[i] :
+              cs = [fam |-> i, doc |-> d, doc2 |-> d2, sels |-> <<>>]
+SpecInst == InitInst /\ [][Next]_cs
+
+\* however the buffer operations of the two instances interleave, each gets the declarative Keep of ITS document
+InstInv ==
+  Chosen =>
+    LET list == cs.sels
+        P == SeqSet(list)
+        paths == ImplNorm(list)
+        oa == TravOps(SeqSet(paths), cs.doc, 0, <<>>).ops
+        ob == TravOps(SeqSet(paths), cs.doc2, 0, <<>>).ops
+        S0 == InstInit(cs.doc, cs.doc2, MaxLen(paths))
+        alone == InstRun(S0, oa, <<>>, [i \in 1..Len(oa) |-> 1])
+    IN /\ Named("OpsAreTheTraversal", alone.docs[1] = ImplKeep(FALSE, list, cs.doc))
+       /\ \A sch \in Merges(Len(oa), Len(ob)) :
+            LET R == InstRun(S0, oa, ob, sch) IN R.docs[1] = Keep(P, cs.doc) /\ R.docs[2] = Keep(P, cs.doc2)
+
 \* the property the spec mutant ~M_AllDocumentKindsFiltered must violate
 MutantKindInv == Chosen => KindIndependent(Keep(SeqSet(cs.sels), cs.doc), Remove(SeqSet(cs.sels), cs.doc),
                                            ImplKeep(FALSE, cs.sels, cs.doc), ImplRemove(FALSE, cs.sels, cs.doc), cs.doc)
@@ -439,6 +538,9 @@ ThoroughFams == <<
   Fam({1, 2, 3, 4, 5}, <<5>>, 5, {1}, {1, 2, 3, 4, 5}, 1, {1, 2, 3}, "both", FALSE),
   Fam({1, 2, JUNK}, <<3, 3, 2>>, 5, {1}, {1, 2}, 3, {1, 2}, "asc", FALSE)
 >>
+
+\* scope of the two-instance model and of its mutant (Cap = 2)
+InstFams == << Fam({1, 2}, <<2, 2>>, 3, {1}, {1, 2}, 2, {1}, "asc", FALSE) >>
 
 \* scope of the spec mutant "shared backing array" (Cap = 2): 4 members at the root, a nested object after them
 MutantFams == << Fam({1, 2, 3, 4}, <<4, 2>>, 5, {1}, {1, 2, 3, 4}, 2, {1}, "asc", FALSE) >>
